@@ -285,7 +285,9 @@ def writers_monotone(ctx, rep, rule):
                                   "a job is flagged running outside the window wrapper: is_running() is true "
                                   "for a job that does not hold a slot (or was never scheduled)")
                     elif is_false:
-                        ok = f.name == '__init__'
+                        from .common import only_used_by
+                        inits = {g.qualname for g in ctx.prog.all_functions() if g.name == '__init__'}
+                        ok = f.name == '__init__' or only_used_by(ctx, f, inits)
                         rep.check(ok, rule, site, f.qualname, "`%s`" % src(node),
                                   "the running flag reverts during a run: is_done() no longer implies "
                                   "is_running(), and a predicate goes back in time")
@@ -295,7 +297,9 @@ def writers_monotone(ctx, rep, rule):
                 else:
                     is_none = isinstance(v, ast.Constant) and v.value is None
                     if is_none:
-                        ok = f.name == '__init__' or _called_before_first_start(ctx, f)
+                        from .common import only_used_by
+                        inits = {g.qualname for g in ctx.prog.all_functions() if g.name == '__init__'}
+                        ok = f.name == '__init__' or only_used_by(ctx, f, inits) or _called_before_first_start(ctx, f)
                         rep.check(ok, rule, site, f.qualname, "`%s`" % src(node),
                                   "the task registry is cleared while a run is in progress: a finished job "
                                   "becomes idle again and loses its result")
@@ -522,6 +526,18 @@ def constructor_forwarding(ctx, rep, rule):
                 for k in c.keywords:
                     if k.arg is not None:
                         passed[k.arg] = k.value
+                    elif isinstance(k.value, ast.Name):
+                        # **settings, where `settings = {'timeout': timeout, ...}` is a literal built just above
+                        ds = [a for a in walk_local(g.node) if isinstance(a, ast.Assign) and len(a.targets) == 1
+                              and isinstance(a.targets[0], ast.Name) and a.targets[0].id == k.value.id]
+                        if len(ds) == 1 and isinstance(ds[0].value, ast.Dict):
+                            for kk, vv in zip(ds[0].value.keys, ds[0].value.values):
+                                if isinstance(kk, ast.Constant) and isinstance(kk.value, str):
+                                    passed[kk.value] = vv
+                        elif len(ds) == 1 and isinstance(ds[0].value, ast.Call) and dotted(ds[0].value.func) == 'dict':
+                            for kw in ds[0].value.keywords:
+                                if kw.arg:
+                                    passed[kw.arg] = kw.value
                 npos = [a for a in c.args if not isinstance(a, ast.Starred)]
                 if isinstance(c.func.value, ast.Name) and npos:
                     npos = npos[1:]                      # explicit self
